@@ -7,27 +7,21 @@ Head-room: `NormL.HeadRoom bits b lsh H` = `1 ≤ bits`, `lsh < b ≤ bits`, `0 
 `H + 2^b + 4 ≤ 2^(bits-1)`; inputs are bounded by `H` in absolute value (for `i64`: `H = 2^62` for
 every `b ≤ 61`, `H = 2^62 - 4` for `b = 62`); they need not be normalised.
 `TorusNear X px Y py`: `|X/2^px − Y/2^py| ≤ 2^-px` on R/Z;  `TorusEq`: equality on R/Z.
+The model follows poulpy after the repairs docs/fixes/01–03 (gap region, rsh_assign, NTT120 fused cross radix).
 
-/- FULL STATEMENT (not proved — false for the pinned code, see docs/C08.md "Defects"):
-   `normalize_inter_value`: the statement of `normalize_inter_value_partial` without the hypothesis
-   `NoGap` (`-limbs_offset ≤ res_size`); refuted by `normalize_inter_value_counterexample`.
-   `rsh_value` (all `k`): as `rsh_value_partial` without `⌈k/b⌉ ≤ res_size`; refuted by
-   `rsh_value_counterexample`.  `lsh_value` (`lshCoef .overwrite b k a res` represents `a·2^k`): not proved
-   (correspondence + oracle only); likewise the fused add/sub forms.
-   `rsh_assign_value` (all `k`): `vec_znx_rsh_assign` represents `a·2^-k` within one unit; false for
-   `⌈k/b⌉ ≥ 2` (`rsh_assign_value_counterexample`) and a panic for `⌈k/b⌉ > size`
-   (`rsh_assign_panics_beyond_size`).
-   `big_normalize_sub_value` (NTT120, cross radix): `res' = res − a·2^off` within one unit; false for
-   negative offsets (`big_normalize_sub_cross_counterexample`).
-   `normalize_cross_value`: for `res_base2k ≠ a_base2k`, outside the gap region
-   (`-limbs_offset·a_base2k ≤ res_size·res_base2k`), `normalizeCrossCoef 64 .plain rb rs off ab a`
-   is `TorusNear` `a·2^off` with one unit of `2^-(rb·rs)` and exact with enough limbs.  Only
-   `normalize_cross_value_partial` (the all-shifted-out case and the output shape) is proved; the
-   executable model is fully corresponded (0 disagreements over all radix pairs 1..62²).
+/- FULL STATEMENTS not (fully) proved; everything below is covered by correspondence + oracle:
+   `lsh_value`: `lshCoef .overwrite b k a res` represents `a·2^k` within one unit (exact with enough
+   limbs), digits balanced — the identification with `normalizeInterCoef … (+k)` is not proved.
+   `fused_value`: the add / sub forms (`lshCoef .add/.sub`, `rshCoef .add/.sub`,
+   `bigNormalizeFusedCol64?/128?`) represent `res ± a·2^off` within one unit.  Proved here only for
+   the forms that are "normalise into a temporary, then limb-wise ±" (`fused_fallback_value`:
+   FFT64 always, NTT120 for different radices) under a no-wrap hypothesis on the limb sums.
+   `normalize_cross_value`: for `res_base2k ≠ a_base2k`, `normalizeCrossCoef bits rb rs off ab a` is
+   `TorusNear` `a·2^off` and exact with enough limbs.  Only `normalize_cross_value_partial` (the
+   all-shifted-out case) is proved; 0 disagreements / 0 oracle failures over all radix pairs 1..62².
    `encode_decode`: `decodeCoefVec 64 b k (encodeCoefI64 b k size v) = ok v'` with `v' ≡ v (mod 2^k)` and
-   `v' = v` when the balanced expansion fits.  Proved here: the encode half (`encode_value`: the limbs
-   represent `v·2^-k` exactly, digits balanced, `encode_frame`); the decode half is covered by the
-   round-trip oracle over every (b,k) only. -/
+   `v' = v` when the balanced expansion fits.  Proved: the encode half (`encode_value`,
+   `encode_frame_*`); the decode half is covered by the round-trip oracle over every (b,k). -/
 -/
 import Poulpy.Lemmas.NormInter
 
@@ -107,19 +101,13 @@ example : valI 50 (middleRun 64 50 7 [2 ^ 62, -3] 0).1 + (middleRun 64 50 7 [2 ^
 
 /-! ### vec_znx_normalize, same radix -/
 
-/-- the region in which the pinned code is correct: the shifted input does not lie entirely below
-the output (`-limbs_offset ≤ res_size`) -/
-def NoGap (b rs : Nat) (off : Int) : Prop := -(splitOffset b off).2 ≤ (rs : Int)
-
-instance (b rs : Nat) (off : Int) : Decidable (NoGap b rs off) := by unfold NoGap; infer_instance
-
 /-- **`vec_znx_normalize` / `vec_znx_big_normalize`, same radix** (`bits = 64`: VecZnx and the FFT64
-accumulator; `bits = 128`: the kernels of the NTT120 accumulator): for every radix, size, offset and
-un-normalised input within head-room, outside the gap region, the output has `rs` balanced digits,
-represents `a·2^off` on the torus within one unit of its last limb, and exactly when it has enough
-limbs (`b·a_size − off ≤ b·rs`). -/
-theorem normalize_inter_value_partial {bits b : Nat} {H : Int} (hr : HeadRoom bits b 0 H)
-    (rs : Nat) (off : Int) (a : List Int) (ha : ∀ x ∈ a, |x| ≤ H) (hng : NoGap b rs off) :
+accumulator; `bits = 128`: the kernels of the NTT120 accumulator): for every radix, size, **every
+offset** and un-normalised input within head-room, the output has `rs` balanced digits, represents
+`a·2^off` on the torus within one unit of its last limb, and exactly when it has enough limbs
+(`b·a_size − off ≤ b·rs`).  (Before poulpy's gap-region repair this needed `-limbs_offset ≤ res_size`.) -/
+theorem normalize_inter_value {bits b : Nat} {H : Int} (hr : HeadRoom bits b 0 H)
+    (rs : Nat) (off : Int) (a : List Int) (ha : ∀ x ∈ a, |x| ≤ H) :
     (normalizeInterCoef bits b rs off a).length = rs ∧
     (∀ d ∈ normalizeInterCoef bits b rs off a, Balanced b d) ∧
     TorusNear (valI b (normalizeInterCoef bits b rs off a)) (b * rs)
@@ -127,22 +115,32 @@ theorem normalize_inter_value_partial {bits b : Nat} {H : Int} (hr : HeadRoom bi
     (((b * a.length : Nat) : Int) - off ≤ (b * rs : Nat) →
       TorusEq (valI b (normalizeInterCoef bits b rs off a)) (b * rs)
         (valI b a * 2 ^ off.toNat) (b * a.length + (-off).toNat)) :=
-  normalizeInterCoef_value hr rs off a ha hng
+  normalizeInterCoef_value hr rs off a ha
 
 /-- non-vacuity: radix 2^50, three un-normalised limbs at the head-room boundary, offset −57 into two limbs -/
 example : TorusNear (valI 50 (normalizeInterCoef 64 50 2 (-57) [2 ^ 62, -(2 ^ 62), 12345])) (50 * 2)
     (valI 50 [2 ^ 62, -(2 ^ 62), 12345] * 2 ^ (-57 : Int).toNat) (50 * 3 + (57 : Int).toNat) :=
-  (normalize_inter_value_partial (bits := 64) (b := 50) (H := 2 ^ 62)
+  (normalize_inter_value (bits := 64) (b := 50) (H := 2 ^ 62)
     ⟨by norm_num, by norm_num, by norm_num, by norm_num, by norm_num⟩ 2 (-57) _
-    (by intro x hx; simp at hx; rcases hx with rfl | rfl | rfl <;> norm_num) (by decide)).2.2.1
+    (by intro x hx; simp at hx; rcases hx with rfl | rfl | rfl <;> norm_num)).2.2.1
+
+/-- non-vacuity in the former gap region: the shifted input lies 3 limbs below the single output limb -/
+example : TorusNear (valI 3 (normalizeInterCoef 64 3 1 (-10) [-4, 3])) (3 * 1)
+    (valI 3 [-4, 3] * 2 ^ (-10 : Int).toNat) (3 * 2 + (10 : Int).toNat) :=
+  (normalize_inter_value (bits := 64) (b := 3) (H := 2 ^ 62)
+    ⟨by norm_num, by norm_num, by norm_num, by norm_num, by norm_num⟩ 1 (-10) _
+    (by intro x hx; simp at hx; rcases hx with rfl | rfl <;> norm_num)).2.2.1
+
+/-- the former witness of the gap defect (`b = 3, a = [-4], rs = 1, off = -4`, was `[-2]`) now rounds to `0` -/
+example : normalizeInterCoef 64 3 1 (-4) [-4] = [0] := by decide
 
 /-- the output of the NTT120 path is the same list truncated to `i64`: a no-op on balanced digits -/
-theorem big_normalize128_inter_value_partial {b : Nat} {H : Int} (hr : HeadRoom 128 b 0 H) (hb : b ≤ 63)
-    (rs : Nat) (off : Int) (a : List Int) (ha : ∀ x ∈ a, |x| ≤ H) (hng : NoGap b rs off) :
+theorem big_normalize128_inter_value {b : Nat} {H : Int} (hr : HeadRoom 128 b 0 H) (hb : b ≤ 63)
+    (rs : Nat) (off : Int) (a : List Int) (ha : ∀ x ∈ a, |x| ≤ H) :
     bigNormalizeCoef128 b rs off b a = some (normalizeInterCoef 128 b rs off a) ∧
     TorusNear (valI b (normalizeInterCoef 128 b rs off a)) (b * rs)
       (valI b a * 2 ^ off.toNat) (b * a.length + (-off).toNat) := by
-  have h := normalizeInterCoef_value hr rs off a ha hng
+  have h := normalizeInterCoef_value hr rs off a ha
   refine ⟨?_, h.2.2.1⟩
   unfold bigNormalizeCoef128
   simp only [if_true]
@@ -155,38 +153,11 @@ theorem big_normalize128_inter_value_partial {b : Nat} {H : Int} (hr : HeadRoom 
     rw [Int.emod_eq_of_lt (by have := hbal.1; linarith) (by have := hbal.2; linarith)]; simp
   rw [List.map_congr_left hw, List.map_id]
 
-example : NoGap 50 2 (-57) := by decide
+example : bigNormalizeCoef128 20 2 (-70) 20 [2 ^ 100, -5] = some (normalizeInterCoef 128 20 2 (-70) [2 ^ 100, -5]) :=
+  (big_normalize128_inter_value (b := 20) (H := 2 ^ 120) ⟨by norm_num, by norm_num, by norm_num, by norm_num, by norm_num⟩
+    (by norm_num) 2 (-70) _ (by intro x hx; simp at hx; rcases hx with rfl | rfl <;> norm_num)).1
 
-/-- **the full statement is false for the pinned code** (defect `vec_znx_normalize/rsh:gap-region`):
-`b = 3, a = [-4], res_size = 1, offset = -4` gives `[-2]`, i.e. `-2/8`, where `a·2^-4 = -1/32`
-must round to `0` or `±1/8`. -/
-theorem normalize_inter_value_counterexample :
-    ¬ TorusNear (valI 3 (normalizeInterCoef 64 3 1 (-4) [-4])) (3 * 1)
-        (valI 3 [-4] * 2 ^ (-4 : Int).toNat) (3 * 1 + (4 : Int).toNat) := by
-  have h : normalizeInterCoef 64 3 1 (-4) [-4] = [-2] := by decide
-  rw [h]
-  rintro ⟨k, e, h1, h2⟩
-  simp [valI] at h1 h2
-  have := abs_le.mp h2
-  omega
-
-example : ¬ NoGap 3 1 (-4) := by decide
-
-/-- **the full statement holds for the proposed repair** (docs/C08.md, "Repair"): with `gap` extra
-carry-only steps over the gap, the same-radix normalisation represents `a·2^off` within one unit of
-the last output limb for *every* offset (no `NoGap` hypothesis); digits balanced. -/
-theorem normalize_inter_value_repaired {bits b : Nat} {H : Int} (hr : HeadRoom bits b 0 H)
-    (rs : Nat) (hrs : 1 ≤ rs) (off : Int) (a : List Int) (ha : ∀ x ∈ a, |x| ≤ H) :
-    (normalizeInterCoefRepaired bits b rs off a).length = rs ∧
-    (∀ d ∈ normalizeInterCoefRepaired bits b rs off a, Balanced b d) ∧
-    TorusNear (valI b (normalizeInterCoefRepaired bits b rs off a)) (b * rs)
-      (valI b a * 2 ^ off.toNat) (b * a.length + (-off).toNat) :=
-  normalizeInterCoefRepaired_value hr rs hrs off a ha
-
-/-- on the witness of the defect the repaired routine returns the correct rounding `0` -/
-example : normalizeInterCoefRepaired 64 3 1 (-4) [-4] = [0] := by decide
-
-/-! ### vec_znx_rsh -/
+/-! ### vec_znx_rsh, vec_znx_rsh_assign -/
 
 /-- `vec_znx_rsh` (overwrite form) *is* the same-radix normalisation with offset `−k` (no head-room
 needed: the two routines perform the same steps) -/
@@ -194,10 +165,11 @@ theorem rsh_eq_normalize {b : Nat} (hb : 1 ≤ b) (k : Nat) (a res : List Int) :
     rshCoef .overwrite b k a res = normalizeInterCoef 64 b res.length (-(k : Int)) a :=
   rshCoef_overwrite_eq hb k a res
 
-/-- **`vec_znx_rsh`**, outside the gap region (`⌈k/b⌉ ≤ res_size`): balanced digits, `a·2^-k` within one
-unit of the last output limb, exact when `b·a_size + k ≤ b·res_size`. -/
-theorem rsh_value_partial {b : Nat} {H : Int} (hr : HeadRoom 64 b 0 H) (k : Nat) (a res : List Int)
-    (ha : ∀ x ∈ a, |x| ≤ H) (hng : (rshSteps b k).1 ≤ res.length) :
+/-- **`vec_znx_rsh`**, every shift amount `k` (including shifts beyond the output precision):
+balanced digits, `a·2^-k` within one unit of the last output limb, exact when
+`b·a_size + k ≤ b·res_size`. -/
+theorem rsh_value {b : Nat} {H : Int} (hr : HeadRoom 64 b 0 H) (k : Nat) (a res : List Int)
+    (ha : ∀ x ∈ a, |x| ≤ H) :
     (rshCoef .overwrite b k a res).length = res.length ∧
     (∀ d ∈ rshCoef .overwrite b k a res, Balanced b d) ∧
     TorusNear (valI b (rshCoef .overwrite b k a res)) (b * res.length) (valI b a) (b * a.length + k) ∧
@@ -205,9 +177,7 @@ theorem rsh_value_partial {b : Nat} {H : Int} (hr : HeadRoom 64 b 0 H) (k : Nat)
       TorusEq (valI b (rshCoef .overwrite b k a res)) (b * res.length) (valI b a) (b * a.length + k)) := by
   have hb : 1 ≤ b := by have := hr.hlsh; omega
   rw [rshCoef_overwrite_eq hb]
-  have hng' : NoGap b res.length (-(k : Int)) := by
-    unfold NoGap; rw [splitOffset_neg_natCast hb]; simp only [neg_neg]; exact_mod_cast hng
-  have h := normalize_inter_value_partial hr res.length (-(k : Int)) a ha hng'
+  have h := normalize_inter_value hr res.length (-(k : Int)) a ha
   have e1 : (-(k : Int)).toNat = 0 := by omega
   have e2 : (-(-(k : Int))).toNat = k := by omega
   rw [e1, e2, pow_zero, mul_one] at h
@@ -217,10 +187,27 @@ theorem rsh_value_partial {b : Nat} {H : Int} (hr : HeadRoom 64 b 0 H) (k : Nat)
   push_cast at this
   linarith
 
-example : TorusNear (valI 50 (rshCoef .overwrite 50 57 [2 ^ 62, -(2 ^ 62), 12345] [0, 0])) (50 * 2)
-    (valI 50 [2 ^ 62, -(2 ^ 62), 12345]) (50 * 3 + 57) :=
-  (rsh_value_partial (b := 50) (H := 2 ^ 62) ⟨by norm_num, by norm_num, by norm_num, by norm_num, by norm_num⟩ 57 _ [0, 0]
-    (by intro x hx; simp at hx; rcases hx with rfl | rfl | rfl <;> norm_num) (by decide)).2.2.1
+/-- a shift far beyond the output precision (`k = 257 > 2·50`) -/
+example : TorusNear (valI 50 (rshCoef .overwrite 50 257 [2 ^ 62, -(2 ^ 62), 12345] [0, 0])) (50 * 2)
+    (valI 50 [2 ^ 62, -(2 ^ 62), 12345]) (50 * 3 + 257) :=
+  (rsh_value (b := 50) (H := 2 ^ 62) ⟨by norm_num, by norm_num, by norm_num, by norm_num, by norm_num⟩ 257 _ [0, 0]
+    (by intro x hx; simp at hx; rcases hx with rfl | rfl | rfl <;> norm_num)).2.2.1
+
+/-- **`vec_znx_rsh_assign`**: never panics, does not depend on the scratch content, and is
+`vec_znx_rsh` computed in place: same length, balanced digits, `a·2^-k` within one unit of the last
+limb for every `k`, exact for `k = 0`. -/
+theorem rsh_assign_value {b : Nat} {H : Int} (hr : HeadRoom 64 b 0 H) (k : Nat) (scr : Int) (a : List Int)
+    (ha : ∀ x ∈ a, |x| ≤ H) :
+    ∃ r, rshAssignCoef b k scr a = some r ∧ r.length = a.length ∧ (∀ d ∈ r, Balanced b d) ∧
+      TorusNear (valI b r) (b * a.length) (valI b a) (b * a.length + k) ∧
+      (k = 0 → TorusEq (valI b r) (b * a.length) (valI b a) (b * a.length + k)) := by
+  have h := rsh_value hr k a a ha
+  exact ⟨_, rfl, h.1, h.2.1, h.2.2.1, fun hk => h.2.2.2 (by omega)⟩
+
+/-- the former witnesses: `⌈k/b⌉ = 2` (was `[-1, 0]` = 1/2 for 1/16; now `[-1, -1]` = 1/4, within one
+unit 1/4), `⌈k/b⌉ > size` (was a panic), dirty scratch with `k = 0` (was input + 5) -/
+example : rshAssignCoef 1 2 0 [0, 1] = some [-1, -1] ∧ rshAssignCoef 1 2 0 [1] = some [-1] ∧
+    rshAssignCoef 3 0 5 [1, 2, 3] = some [1, 2, 3] := by decide
 
 /-! ### vec_znx_normalize_assign -/
 
@@ -314,45 +301,6 @@ theorem encode_frame_column (v : List Col) (n b col k : Nat) (data : List Int) (
     unfold getCol setCol
     simp [List.getD_eq_getElem?_getD, List.getElem?_set, hc.symm]
 
-/-! ### recorded defects of the pinned code (negations on concrete witnesses) -/
-
-/-- `vec_znx_rsh` in the gap region (`⌈k/b⌉ > res_size`): `b = 3, a = [-4], k = 4` gives `[-2]` -/
-theorem rsh_value_counterexample :
-    ¬ TorusNear (valI 3 (rshCoef .overwrite 3 4 [-4] [0])) (3 * 1) (valI 3 [-4]) (3 * 1 + 4) := by
-  have h : rshCoef .overwrite 3 4 [-4] [0] = [-2] := by decide
-  rw [h]
-  rintro ⟨k, e, h1, h2⟩
-  simp [valI] at h1 h2
-  have := abs_le.mp h2
-  omega
-
-/-- `vec_znx_rsh_assign` with `⌈k/b⌉ = 2`: `b = 1, a = [0, 1]` (= 1/4), `k = 2` gives `[-1, 0]` (= 1/2)
-where `1/16` must round to `0` or `±1/4`. -/
-theorem rsh_assign_value_counterexample :
-    rshAssignCoef 1 2 0 [0, 1] = some [-1, 0] ∧
-    ¬ TorusNear (valI 1 [-1, 0]) (1 * 2) (valI 1 [0, 1]) (1 * 2 + 2) := by
-  refine ⟨by decide, ?_⟩
-  rintro ⟨k, e, h1, h2⟩
-  simp [valI] at h1 h2
-  have := abs_le.mp h2
-  omega
-
-/-- `vec_znx_rsh_assign` panics (index assertion) when `⌈k/b⌉ > size` -/
-theorem rsh_assign_panics_beyond_size : rshAssignCoef 1 2 0 [1] = none := by decide
-
-/-- NTT120 `vec_znx_big_normalize_sub_assign`, cross radix, negative offset:
-`rb = 25, res = [-2^24, -2^24], ab = 15, a = [2511], off = -45` gives `[-2^24 + 1, 2^24 - 2]`;
-the correct value is `res − a·2^-45 ≈ −1/2 − 2^-26`, the result is `≈ −1/2 + 1.5·2^-25`. -/
-theorem big_normalize_sub_cross_counterexample :
-    bigNormalizeAssignCoef128 .sub 25 (-45) 15 [2511] [-(2 ^ 24), -(2 ^ 24)] = some [-(2 ^ 24) + 1, 2 ^ 24 - 2] ∧
-    ¬ TorusNear (valI 25 [-(2 ^ 24) + 1, 2 ^ 24 - 2]) (25 * 2)
-        (valI 25 [-(2 ^ 24), -(2 ^ 24)] * 2 ^ 10 - 2511) (25 * 2 + 10) := by
-  refine ⟨by decide, ?_⟩
-  rintro ⟨k, e, h1, h2⟩
-  simp [valI] at h1 h2
-  have := abs_le.mp h2
-  omega
-
 /-! ### cross radix -/
 
 /-- **cross-radix `vec_znx_normalize`, partial**: when the offset shifts the whole input out
@@ -360,12 +308,12 @@ theorem big_normalize_sub_cross_counterexample :
 FULL STATEMENT at the top of the file. -/
 theorem normalize_cross_value_partial (rb rs ab : Nat) (off : Int) (a : List Int)
     (h : clampNat ((a.length * ab : Nat) - (splitOffset ab off).2 * ab) (rs * rb) = 0) :
-    normalizeCrossCoef 64 .plain rb rs off ab a [] = some (List.replicate rs 0) := by
+    normalizeCrossCoef 64 rb rs off ab a = some (List.replicate rs 0) := by
   unfold normalizeCrossCoef
   simp only [h]
   simp
 
-example : normalizeCrossCoef 64 .plain 4 2 9 3 [1, 2, 3] [] = some [0, 0] :=
+example : normalizeCrossCoef 64 4 2 9 3 [1, 2, 3] = some [0, 0] :=
   normalize_cross_value_partial 4 2 3 9 [1, 2, 3] (by decide)
 
 end C08
